@@ -6,7 +6,7 @@ RULE = ("forests (sampler + enumeration over {a,b}) x PAIRS of spellings drawn f
         "{text with random branch strings, JSON, YAML, TOML(single root), dry-run+extensions, mkdir+verify in a jail}; metamorphic: "
         "the two implementation results are compared with each other; non-trivial = >= 2 nodes and the two spellings differ")
 
-OPS = ["out d 0 0", "out d 0 1", "out j 0 0", "out y 0 0", "out t 0 0", "out d 1 0", "out d 1 1", "walk"]
+OPS = ["out d 0 0", "out d 0 1", "out j 0 0", "out y 0 0", "out t 0 0", "out d 1 0", "out d 1 1", "walk", "fs:m", "fs:v"]
 
 
 def run(ck, rng):
@@ -14,6 +14,10 @@ def run(ck, rng):
     forests = enum_forests(4 if ck.tier == "quick" else 6) + wide_forests(10 if ck.tier == "quick" else 20)
     for _ in range(700 if ck.tier == "quick" else 25000):
         forests.append(gen_forest(rng, pool=rng.choice(["mixed", "ascii", "hostile_fmt", "fs"])))
+    # documents well beyond the scanner's 4 KiB buffer (a row must not alias memory that is reused while the document is read)
+    for _ in range(25 if ck.tier == "quick" else 400):
+        big = gen_forest(rng, max_roots=6, max_nodes=rng.choice([150, 300, 500]), max_depth=6, fan=8, dup_prob=0.1, pool="fs")
+        forests.append([(d, n + b"_%d" % i if len(n) < 6 else n) for i, (d, n) in enumerate(big)])
     c1, c2, meta = [], [], []
     for items in forests:
         sp1 = gen_spelling(rng, items)
@@ -26,6 +30,20 @@ def run(ck, rng):
         for op in (ops if ck.tier == "thorough" else rng.sample(ops, 3)):
             bf = rng.choice(BF_CHOICES)
             exts = rng.choice([[], [b".go"], [b".go", b".md", b"Makefile"], [b"a"]])
+            if op.startswith("fs:"):
+                # mkdir / verify in a fresh jail (names must be path elements for the two results to be comparable states)
+                from c05 import single_elem
+                if not all(single_elem(n) and len(n) < 200 for _, n in items):
+                    continue
+                if op == "fs:m":
+                    mk = lambda d: "hist F,d:746774;m,0,%s,746774,-,-,-,-,%s" % ("+".join(x.hex() for x in exts) if exts else "-", hx(d))
+                else:
+                    mk = lambda d: "hist F,d:746774+d:%s;v,%s,746774,%s" % (hx(b"tgt/" + items[0][1]), strict, hx(d))
+                    strict = rng.choice("01")
+                c1.append(mk(d1))
+                c2.append(mk(d2))
+                meta.append((items, d1, d2, op))
+                continue
             if op == "walk":
                 pre, post = "walk %s -" % bf_args(bf), ""
             else:
